@@ -9,6 +9,7 @@
 //   updmon history  <script>                                  scripted checkForUpdatesIfDue calls, virtual clock
 #include <cstdio>
 #include <cstdlib>
+#include <filesystem>
 #include <fstream>
 #include <iostream>
 #include <sstream>
@@ -172,6 +173,11 @@ static int doHistory(const std::string& file) {
         in >> cmd;
         if (cmd == "RESET") {
             std::remove(cacheFile.c_str());
+            {
+                // every history starts on a machine where not even the cache home exists yet
+                std::error_code ec;
+                std::filesystem::remove_all(std::getenv("XDG_CACHE_HOME"), ec);
+            }
             std::printf("R\n");
             continue;
         }
